@@ -188,11 +188,92 @@ def argv_cases(res, hardened, work, n_cases):
     res.extra["argv"] = stats
 
 
+def catalog_cases(res, hardened, work, n_cases):
+    """Semantically targeted invalid (and valid) schemas: a generated valid schema plus at most one rule-breaking edit from
+    the C08 catalog, run against the hardened binary.  The oracle here is C09's: exit 0, or non-zero with a diagnostic,
+    no sanitizer report / abort / hang, and nothing left in the output directory after a rejection."""
+    from hypothesis import given, settings, seed as hseed, strategies as st, HealthCheck, Phase
+    from vlib import schemagen
+    from vlib.checks import c08
+    failures = []
+    stats = {"n": 0, "accepted": 0, "rejected": 0}
+
+    @hseed(common.seed() + 909)
+    @settings(max_examples=n_cases, database=None, deadline=None, suppress_health_check=list(HealthCheck),
+              report_multiple_bugs=False, phases=[Phase.generate, Phase.shrink])
+    @given(st.data())
+    def prop(data):
+        sch = data.draw(schemagen.schemas(max_messages=2), label="schema")
+        s2 = json.loads(json.dumps(sch))
+        rule = None
+        if data.draw(st.integers(0, 7)) != 0:
+            cands = c08.candidates(s2, data.draw)
+            if cands:
+                # first the rule (uniformly among those applicable), then a position: rules with few positions are not starved
+                rules_ = sorted({c_[0] for c_ in cands})
+                rule = rules_[data.draw(st.integers(0, len(rules_) - 1), label="rule")]
+                sub = [c_ for c_ in cands if c_[0] == rule]
+                rule, pos, fn = sub[data.draw(st.integers(0, len(sub) - 1), label="edit")]
+                fn(s2)
+        d = os.path.join(work, "cat")
+        shutil.rmtree(d, ignore_errors=True)
+        os.makedirs(d)
+        for fn_, content in schemagen.include_files(s2).items():
+            with open(os.path.join(d, os.path.basename(fn_)), "w") as f:
+                f.write(content)
+        xml = schemagen.to_xml(s2)
+        sp = os.path.join(d, "s.xml")
+        with open(sp, "w") as f:
+            f.write(xml)
+        out_dir = os.path.join(d, "out")
+        rc, out = None, ""
+        for attempt in range(3):
+            try:
+                rc, out = common.run_sbeppc(hardened, sp, out_dir, timeout=60, cwd=d,
+                                            env={"PATH": "/usr/bin:/bin", "ASAN_OPTIONS": "detect_leaks=0"})
+                break
+            except subprocess.TimeoutExpired:
+                rc, out = -999, "TIMEOUT"
+        stats["n"] += 1
+        res.count()
+        res.nontriv("cat:" + common.text_hash(xml))
+        sig = None
+        if rc == -999:
+            sig = "catalog:hang"
+        elif rc < 0 or rc >= 128:
+            sig = "catalog:" + (classify(out) or "signal%d" % rc)
+        elif classify(out):
+            sig = "catalog:" + classify(out)
+        elif rc != 0 and "Error" not in out:
+            sig = "catalog:no-diagnostic"
+        elif rc != 0:
+            left = [p_ for p_ in common._iter_files(out_dir)] if os.path.isdir(out_dir) else []
+            io_fail = "can't open file" in out or "can't write file" in out or "can't create directory" in out
+            if left and not io_fail:
+                sig = "catalog:files-left-after-rejection"
+        stats["accepted" if rc == 0 else "rejected"] += 1
+        res.cls("catalog_" + (rule or "unedited"))
+        if sig:
+            failures.append((sig, xml, rule, rc, out, schemagen.include_files(s2)))
+            assert False, sig
+
+    try:
+        prop()
+    except AssertionError:
+        pass
+    if failures:
+        sig, xml, rule, rc, out, incs = failures[-1]
+        res.violation(sig, {"kind": "catalog", "schema_xml": xml, "rule": rule, "includes": incs},
+                      "schema (edit: %s): exit %s, output: %s" % (rule, rc, out[-600:]))
+    res.extra["catalog"] = stats
+
+
 def run(t, budget=1.0):
     res = common.Result("C09", t)
     res.rule = ("libFuzzer (coverage-guided, byte mutator + structure-aware XML mutator; seeds = repository schemas, its error "
                 "schemas, generated valid schemas, include graphs) on sbeppc's real main in process, plus Hypothesis-generated "
-                "command lines; non-trivial = input is well-formed XML and reached schema parsing (distinct by input hash, "
+                "command lines, plus generated schemas with at most one rule-breaking edit from the C08 catalog against the hardened "
+                "binary (same oracle incl. no files left after a rejection); non-trivial = input is well-formed XML and reached schema parsing (distinct by input hash, "
                 "union over workers), or a command line with >= 2 arguments (distinct by argv)")
     res.assumptions = ["sanitizer/assert-enabled build behaves like the release build except for the added checks",
                        "--help/--version/no-argument paths (which call exit) are exercised only by the subprocess argv generator",
@@ -222,6 +303,7 @@ def run(t, budget=1.0):
             procs.append((subprocess.Popen(cmd, stdout=log, stderr=subprocess.STDOUT, env=env, cwd=work), log, i))
         # argv generator runs meanwhile
         argv_cases(res, hardened, work, int((150 if quick else 2000) * budget))
+        catalog_cases(res, hardened, work, int((600 if quick else 8000) * budget))
         for p, log, i in procs:
             try:
                 p.wait(timeout=secs + 600)
@@ -306,6 +388,20 @@ def replay(path):
             out = common.strip_ansi(r.stdout.decode(errors="replace"))
             print("exit", r.returncode, out[-2000:])
             bad = r.returncode < 0 or r.returncode >= 128 or classify(out) or (r.returncode != 0 and "Error" not in out)
+            return 1 if bad else 0
+        if case["kind"] == "catalog":
+            hardened = common.build_sbeppc("hardened")
+            for fn_, content in (case.get("includes") or {}).items():
+                with open(os.path.join(work, os.path.basename(fn_)), "w") as f:
+                    f.write(content)
+            sp = os.path.join(work, "s.xml")
+            with open(sp, "w") as f:
+                f.write(case["schema_xml"])
+            out_dir = os.path.join(work, "out")
+            rc, out = common.run_sbeppc(hardened, sp, out_dir, timeout=120, cwd=work, env={"PATH": "/usr/bin:/bin", "ASAN_OPTIONS": "detect_leaks=0"})
+            left = [p_ for p_ in common._iter_files(out_dir)] if os.path.isdir(out_dir) else []
+            print("exit", rc, out[-1500:], "files left:", len(left))
+            bad = rc < 0 or rc >= 128 or classify(out) or (rc != 0 and ("Error" not in out or left))
             return 1 if bad else 0
         fuzzer = build_fuzzer()
         p = os.path.join(work, "input")
